@@ -195,3 +195,26 @@ def final_depth(s):
             d -= 1
         i += 1
     return d
+
+
+def with_tc(fn):
+    """Run fn() with the name TextContent in every loaded rtflite module bound to a NON-VALIDATING constructor
+    (TextContent.model_construct): pydantic-core validates in Rust and would concretise symbolic field values.
+    Assumption (listed as a stub): validation passes str/int/bool field values through unchanged."""
+    import sys
+    import rtflite.row as row
+    real = row.TextContent
+
+    def _tc(**kw):
+        return real.model_construct(**kw)
+
+    saved = []
+    for name, m in list(sys.modules.items()):
+        if name.startswith("rtflite") and getattr(m, "TextContent", None) is real:
+            saved.append(m)
+            m.TextContent = _tc
+    try:
+        return fn()
+    finally:
+        for m in saved:
+            m.TextContent = real
